@@ -471,7 +471,7 @@ pub fn c18(c: &Case, rep: &mut Report, seed: u64) {
             let mut a = observe(input, &calls, Box::new(host));
             normalise_traces(&mut a, &format!("{}.{}(", imp.module, renamed_field));
             // in the output the replaced function is the one whose body starts with the harness marker
-            let out_idx = dout.funcs.iter().position(|f| f.body.as_ref().map(|b| matches!(b.ops.first().map(|o| &o.op), Some(wasmparser::Operator::I32Const { value: 0x7ACE }))).unwrap_or(false)).map(|i| i as u32);
+            let out_idx = dout.funcs.iter().position(|f| f.body.as_ref().map(|b| b.ops.iter().any(|o| matches!(o.op, wasmparser::Operator::I32Const { value: 0x7ACE }))).unwrap_or(false)).map(|i| i as u32);
             SPECIAL_FUNC.with(|s| s.set(out_idx));
             let b = observe(out, &calls, Box::new(StdHost::new()));
             SPECIAL_FUNC.with(|s| s.set(None));
